@@ -1,4 +1,5 @@
 import Sentinel.Validity
+import Sentinel.World
 /-!
 # C12 — valid rules are enforceable without panics; invalid input never poisons
 
@@ -163,6 +164,92 @@ theorem br_counter_constructible (r : VBr) (_h : r.check = none) : ∃ g, brCoun
   unfold brCounterNew
   rw [if_pos this]
   exact ⟨_, rfl⟩
+
+/-- the sample count always divides the interval (it is `ivl/500` only when 500 divides `ivl`, else 1) -/
+theorem flowSampleCount_divides (ivl : Nat) : flowSampleCount ivl ≠ 0 ∧ ivl % flowSampleCount ivl = 0 := by
+  unfold flowSampleCount
+  by_cases h : ivl > 500 ∧ ivl < 10000 ∧ ivl % 500 = 0
+  · rw [if_pos h]
+    obtain ⟨h1, _, h3⟩ := h
+    have hk : ivl = 500 * (ivl / 500) := by omega
+    constructor
+    · omega
+    · have : (500 * (ivl / 500)) % (ivl / 500) = 0 := Nat.mul_mod_left _ _
+      rw [← hk] at this
+      exact this
+  · rw [if_neg h]; exact ⟨by decide, Nat.mod_one _⟩
+
+/-- **every statistic interval gets a statistic**: `generate_stat_for` returns `Ok` for every interval (no accepted flow rule is
+skipped for want of a window): when the global window cannot be reused, the private array and its reader are constructible -/
+theorem flow_stat_total (ivl : Nat) : ∃ k, flowStatNew ivl = .ok k := by
+  unfold flowStatNew
+  by_cases h0 : ivl = 0 ∨ ivl = 1000
+  · rw [if_pos h0]; exact ⟨_, rfl⟩
+  · rw [if_neg h0]
+    have hi : ivl ≠ 0 := fun h => h0 (Or.inl h)
+    obtain ⟨hs, hd⟩ := flowSampleCount_divides ivl
+    simp only []
+    by_cases hr : checkReuse (flowSampleCount ivl) ivl 20 10000 = 0
+    · rw [if_pos hr]; exact ⟨_, rfl⟩
+    · rw [if_neg hr]
+      have hl : leapNewOk (flowSampleCount ivl) ivl = true := by simp [leapNewOk, hs, hd]
+      have hso : statOk (flowSampleCount ivl) ivl = true := by simp [statOk, hi, hs, hd]
+      have hc : checkReuse (flowSampleCount ivl) ivl (flowSampleCount ivl) ivl = 0 := by
+        simp [checkReuse, hso]
+      simp [hl, hc]
+
+/-- ... and it is the statistic the entry-level model (`flowStatFor`, C01) works with -/
+theorem flow_stat_matches_world (ivl : Nat) :
+    (flowStatNew ivl = .ok .default ↔ (ivl = 0 ∨ ivl = 1000)) ∧
+    (∀ sc iv, flowStatNew ivl = .ok (.reuse sc iv) → sc = flowSampleCount ivl ∧ iv = ivl ∧ checkReuse sc ivl 20 10000 = 0) ∧
+    (∀ sc iv, flowStatNew ivl = .ok (.priv sc iv) → sc = flowSampleCount ivl ∧ iv = ivl ∧ checkReuse sc ivl 20 10000 ≠ 0) := by
+  unfold flowStatNew
+  by_cases h0 : ivl = 0 ∨ ivl = 1000
+  · simp [h0]
+  · rw [if_neg h0]
+    simp only []
+    by_cases hr : checkReuse (flowSampleCount ivl) ivl 20 10000 = 0
+    · simp [hr, h0]
+    · rw [if_neg hr]
+      refine ⟨?_, ?_, ?_⟩
+      · constructor
+        · intro h; split at h <;> (try split at h) <;> simp at h
+        · intro h; exact absurd h h0
+      · intro sc iv h; split at h <;> (try split at h) <;> simp at h
+      · intro sc iv h
+        split at h
+        · simp at h
+        · split at h
+          · simp at h
+          · simp at h; obtain ⟨h1, h2⟩ := h; subst h1; subst h2; exact ⟨rfl, rfl, hr⟩
+
+/-- the statistic the entry-level model (`flowStatFor`, used by C01's theorems and every world-based driver) gives a rule is the one
+`generate_stat_for`'s explicit model constructs -/
+theorem flow_stat_is_world_stat (ivl : Nat) :
+    (match flowStatNew ivl with
+     | .ok .default => flowStatFor ivl = .global defaultReader
+     | .ok (.reuse sc iv) => flowStatFor ivl = .global ⟨sc, iv⟩
+     | .ok (.priv sc iv) => flowStatFor ivl = .priv ⟨sc, iv / sc⟩ (ringInit MetricBucket.zero ⟨sc, iv / sc⟩) ⟨sc, iv⟩ []
+     | .error _ => False) := by
+  obtain ⟨hs, hd⟩ := flowSampleCount_divides ivl
+  unfold flowStatNew flowStatFor
+  by_cases h0 : ivl = 0 ∨ ivl = 1000
+  · simp [h0]
+  · have hi : ivl ≠ 0 := fun h => h0 (Or.inl h)
+    rw [if_neg h0, if_neg h0]
+    simp only []
+    have hsc : (if ivl > 500 ∧ ivl < 10000 ∧ ivl % 500 = 0 then ivl / 500 else 1) = flowSampleCount ivl := rfl
+    rw [hsc]
+    by_cases hr : checkReuse (flowSampleCount ivl) ivl 20 10000 = 0
+    · simp [hr]
+    · have hl : leapNewOk (flowSampleCount ivl) ivl = true := by simp [leapNewOk, hs, hd]
+      have hso : statOk (flowSampleCount ivl) ivl = true := by simp [statOk, hi, hs, hd]
+      have hc : checkReuse (flowSampleCount ivl) ivl (flowSampleCount ivl) ivl = 0 := by simp [checkReuse, hso]
+      simp [hr, hl, hc]
+
+/-- non-vacuity: 1700 ms and 1001 ms get a one-bucket private window, 2000 ms reuses the global window with 4 buckets, 1500 ms gets a 3-bucket private one -/
+example : flowStatNew 1700 = .ok (.priv 1 1700) ∧ flowStatNew 1001 = .ok (.priv 1 1001) ∧ flowStatNew 2000 = .ok (.reuse 4 2000) ∧
+    flowStatNew 1500 = .ok (.priv 3 1500) ∧ flowStatNew 1000 = .ok .default := ⟨by rfl, by rfl, by rfl, by rfl, by rfl⟩
 
 /-- `ThrottlingChecker::new` cannot panic for any `u32` millisecond values -/
 theorem throttling_new_total (maxq ivl : Nat) (h1 : maxq ≤ 4294967295) (h2 : ivl ≤ 4294967295) : ∃ p, throttlingNew maxq ivl = .ok p := by
